@@ -1094,7 +1094,42 @@ func (g *g) arithText(pieces *[]Piece) []string {
 		if i > 0 {
 			b.WriteString(g.pick("arith_gap", " ", "  ", "\t", " ", "\n", "\n ", " \n  ", "\n\t"))
 		}
-		switch g.ch.Intn(7, "arith_chunk") {
+		switch g.ch.Intn(9, "arith_chunk") {
+		case 7:
+			// quotes, empty ones included, directly next to other parts
+			pre := g.pick("arith_q_pre", "", "", "1+", "x")
+			if pre != "" {
+				b.WriteString(pre)
+				ps = append(ps, skel.Lit(pre))
+			}
+			switch g.ch.Intn(5, "arith_q") {
+			case 0:
+				b.WriteString(`""`)
+				ps = append(ps, skel.Quote(`"`, nil))
+			case 1:
+				b.WriteString("''")
+				ps = append(ps, skel.Quote("'", []string{skel.Lit("")}))
+			case 2:
+				b.WriteString(`"2"`)
+				ps = append(ps, skel.Quote(`"`, []string{skel.Lit("2")}))
+			case 3:
+				b.WriteString("'3  4'")
+				ps = append(ps, skel.Quote("'", []string{skel.Lit("3  4")}))
+			case 4:
+				b.WriteString(`"$x"`)
+				ps = append(ps, skel.Quote(`"`, []string{skel.Param(false, "x", "", skel.Nil)}))
+			}
+			post := g.pick("arith_q_post", "", "+1", "-1", "*y")
+			if post != "" {
+				b.WriteString(post)
+				ps = append(ps, skel.Lit(post))
+			}
+			g.f("arith_quote")
+		case 8:
+			// the same directly in front of an expansion
+			b.WriteString(`""$x`)
+			ps = append(ps, skel.Quote(`"`, nil), skel.Param(false, "x", "", skel.Nil))
+			g.f("arith_quote")
 		default:
 			w := g.pick("arith_lit", "1", "x", "+", "1+2", "(1+2)*3", "x<<2", "y=5", "x>1", "a&&b", "-", "0x1F", "!x", "(x)", "x?1:2", "é", "日本+1")
 			b.WriteString(w)
@@ -1279,7 +1314,7 @@ func (g *g) heredoc(n string) string {
 	}
 	nl := []int{1, 2, 0, 3, 4}[g.ch.Intn(5, "hd_lines")]
 	for i := 0; i < nl; i++ {
-		k := g.ch.Intn(22, "hd_line")
+		k := g.ch.Intn(25, "hd_line")
 		if k == 20 {
 			// double-quotes inside the word of an expansion (then single-quotes in a later one are still text)
 			k = 0
@@ -1289,6 +1324,31 @@ func (g *g) heredoc(n string) string {
 				lit += " t\n"
 				body.WriteString(`${x:-"a"} t` + "\n")
 				g.f("heredoc_line_with_dquotes_inside_param_word")
+				continue
+			}
+		}
+		if k >= 22 {
+			// a substitution that spans several lines of the body
+			kk := k
+			k = 0
+			if !h.Quoted && !g.bq && !g.o.NoSubst && form < 8 {
+				flush()
+				c := skel.Cmd(skel.Simple(nil, []string{skel.Word([]string{skel.Lit("c")})}), nil)
+				txt := ""
+				switch kk {
+				case 22:
+					ps = append(ps, skel.CmdSubst(true, []string{c}))
+					txt = "$(\nc\n)"
+				case 23:
+					ps = append(ps, skel.CmdSubst(false, []string{c}))
+					txt = "`\nc\n`"
+				case 24:
+					ps = append(ps, skel.Arith([]string{skel.Lit("1")}))
+					txt = "$((\n1\n))"
+				}
+				lit += " t\n"
+				body.WriteString(txt + " t\n")
+				g.f("heredoc_body_with_multiline_substitution")
 				continue
 			}
 		}
